@@ -305,12 +305,13 @@ pub fn run(tier: &str, seed: u64) -> i32 {
     let _ = std::fs::remove_dir_all(d);
     if tier == "thorough" {
         miri_pass(&mut agg, &mut chk);
+        asan_pass(&mut agg, &mut chk, tier, seed, wd);
     }
     chk.evaluations = agg.c("climb_candidates") + agg.c("searches_after_long_games") + agg.c("texts_tried") + agg.c("uci_capacity_runs") + agg.c("autoplay_runs");
     chk.distinct_nontrivial = agg.c("climb_accepted_by_reader") + agg.c("games_at_interface_length_limit") + agg.c("texts_accepted");
-    chk.rule = "executions on the debug-assertions build (std unsafe-precondition checks for get_unchecked/unwrap_unchecked, arrayvec capacity asserts, Position asserts) and on the release build with the capacity gauges of the cfg hooks (abort before an unchecked push at capacity): (a) hill-climb over positions the reader accepts maximising the unchecked move count (reaches the 256 boundary if the reader lets such material through), then a search of the best position; (b) 398-ply games (the interface's limit) of material-stripping / king-walk / capture policies loaded with push_history, followed by searches with limit none/255/64/8-37 under a poll budget, state-stack high-water mark read from the gauge; (c) `rustybait auto 0|1|2|3|5|8` self-play on the debug-assertions binary until it ends, the real self-play loop (autoplay.rs) in-process with every search ended after a fixed number of polls (a ladder of 32 speeds + random ones: deterministic games, some of which run to the length limit), `position ... moves <398 plies>` + `go infinite|depth N` on the same binary, and over-long records (398-1000 plies, also followed by an illegal move) + `show` + `go` which must be refused cleanly; (d) mutated corpus FENs that the reader accepts: generation, push/pop, display, shallow search; (e, thorough) Miri over FEN parsing, push/pop/get_moves and shallow searches. distinct_nontrivial = accepted climb candidates + games at the length limit + accepted mutant texts.".into();
+    chk.rule = "executions on the debug-assertions build (std unsafe-precondition checks for get_unchecked/unwrap_unchecked, arrayvec capacity asserts, Position asserts) and on the release build with the capacity gauges of the cfg hooks (abort before an unchecked push at capacity): (a) hill-climb over positions the reader accepts maximising the unchecked move count (reaches the 256 boundary if the reader lets such material through), then a search of the best position; (b) 398-ply games (the interface's limit) of material-stripping / king-walk / capture policies loaded with push_history, followed by searches with limit none/255/64/8-37 under a poll budget, state-stack high-water mark read from the gauge; (c) `rustybait auto 0|1|2|3|5|8` self-play on the debug-assertions binary until it ends, the real self-play loop (autoplay.rs) in-process with every search ended after a fixed number of polls (a ladder of 32 speeds + random ones: deterministic games, some of which run to the length limit), `position ... moves <398 plies>` + `go infinite|depth N` on the same binary, and over-long records (398-1000 plies, also followed by an illegal move) + `show` + `go` which must be refused cleanly; (d) mutated corpus FENs that the reader accepts: generation, push/pop, display, shallow search; (e, thorough) Miri over FEN parsing, push/pop/get_moves and shallow searches; (f, thorough) an AddressSanitizer build of the binary under over-long records, hostile move strings, capacity runs, one self-play and generated multi-command sessions with schedule-point delays (heap/global out-of-bounds and use-after-free across the threads; any report is a violation). distinct_nontrivial = accepted climb candidates + games at the length limit + accepted mutant texts.".into();
     chk.assumptions = vec![
-        "ASan and valgrind do not see these overflows (the writes land inside the same Game object / ArrayVec): measured in the design phase, so the checked build and the gauges are the detectors".into(),
+        "ASan and valgrind do not see the capacity overflows (the writes land inside the same Game object / ArrayVec; measured again on the seeded changes C15-2 and C15-4, which the sanitizer build does not report): the checked build and the gauges are the detectors, the sanitizer pass is a secondary detector for heap and global accesses".into(),
         "'self-play of unbounded length' is restated as: until the program ends by itself, under a wall-clock watchdog whose expiry is inconclusive".into(),
     ];
     chk.need("hill-climb candidates", agg.c("climb_candidates"), 10000);
@@ -327,6 +328,35 @@ pub fn run(tier: &str, seed: u64) -> i32 {
     chk.need("hostile move strings sent to the debug-assertions binary", agg.c("hostile_move_strings"), 10000);
     chk.need("workers on the debug-assertions build", agg.c("workers_checked"), 8);
     finalize(chk, &agg)
+}
+
+/// AddressSanitizer build of the binary (thorough tier; built by check.sh with the nightly
+/// toolchain): over-long records, hostile move strings, capacity runs, one self-play and generated
+/// multi-command sessions with schedule-point delays. Secondary detector: it sees heap and global
+/// out-of-bounds accesses and use-after-free across the threads, not the intra-object overflows.
+fn asan_pass(agg: &mut Agg, chk: &mut Check, tier: &str, seed: u64, wd: Duration) {
+    let bin = std::env::var("VH_ENGINE_BIN_ASAN").unwrap_or_default();
+    if bin.is_empty() || !std::path::Path::new(&bin).exists() {
+        agg.notes.push("AddressSanitizer build of the engine not available (nightly toolchain missing?): sanitizer pass skipped".into());
+        chk.put("asan", json!({"ran": false}));
+        return;
+    }
+    let t0 = Instant::now();
+    let a = par::run_workers("C15asan", tier, seed, 16, &[], wd, None, &[("VH_ENGINE_OVERRIDE".into(), bin.clone())]);
+    chk.put("asan", json!({"ran": true, "binary": bin, "sessions": a.c("asan_sessions"), "commands": a.c("asan_commands"), "bestmoves": a.c("asan_bestmoves"),
+        "hostile_move_strings": a.c("hostile_move_strings"), "overlong_record_runs": a.c("overlong_record_runs"), "uci_capacity_runs": a.c("uci_capacity_runs"),
+        "autoplay_runs": a.c("autoplay_runs"), "wall_s": t0.elapsed().as_secs_f64()}));
+    let d = a.workdir.clone();
+    let mut a = a;
+    // keep the sanitizer group's counters apart from the coverage minima of the other groups
+    let ctr: Vec<(String, u64)> = std::mem::take(&mut a.ctr).into_iter().collect();
+    for (k, v) in ctr {
+        let k = if k.starts_with("asan_") { k } else { format!("asan_{k}") };
+        a.ctr.insert(k, v);
+    }
+    agg.merge(a);
+    let _ = std::fs::remove_dir_all(d);
+    chk.need("sessions on the AddressSanitizer build", agg.c("asan_sessions"), 100);
 }
 
 /// Miri over small workloads (thorough tier): `cargo +nightly miri run -- miri <shard>`.
